@@ -384,7 +384,7 @@ class MEDDLY::mpzcard {
         static inline void doneTemp(oper_item& temp) {
             mpz_ptr t = temp.hugeint();
             mpz_clear(t);
-            delete t;
+            delete[] t;     // allocated with new mpz_t, an array type
         }
 
         static inline void show(output &out, const oper_item &val) {
